@@ -4,6 +4,7 @@ import GeosModel.Base.F64
 import GeosModel.Model.Relate.Ref
 import GeosModel.Model.Relate.Pred
 import GeosModel.Model.Relate.EnvExit
+import GeosModel.Model.Relate.PrepPoly
 import GeosModel.Base.Env
 import Driver.Flatten
 /-! Driver for C01 (and the matrix part of C02): evaluates the reference DE-9IM on a grid pair and
@@ -155,6 +156,33 @@ def imMatrix (line : String) : String :=
     | _, _, _ => "parse-error"
   | _ => "bad-line"
 
+/-! #### stream prep-core: the four prepared-polygon fast-path classes and the `PreparedPolygon` wrappers, from the decision core of
+Model/Relate/PrepPoly.lean on the facts the harness computed exactly on the lattice -/
+open GeosModel.PrepPoly in
+def prepCore (line : String) : String :=
+  match splitBar (Driver.tokens line) with
+  | [["K"], _, _, obs] =>
+    let o := kv obs
+    let get (k : String) : String := (o.lookup k).getD "?"
+    let flag (k : String) : Option Bool := match get k with | "1" => some true | "0" => some false | _ => none
+    let locs (k : String) : Option (List Loc3) :=
+      if get k == "-" then some [] else (get k).toList.mapM fun c => if c == 'I' then some Loc3.I else if c == 'B' then some Loc3.B else if c == 'E' then some Loc3.E else none
+    match locs "tl", locs "rl", flag "si", flag "pr", flag "np", flag "fc", flag "fv", flag "pie", flag "pu", flag "d2", flag "pg", flag "ss",
+          (get "n").toNat?, flag "ec", flag "ei", flag "rect" with
+    | some tl, some rl, some si, some pr, some np, some fc, some fv, some pie, some pu, some d2, some pg, some ss, some n, some ec, some ei, some rect =>
+      let sh : Shape := { puntalIE := pie, puntal := pu, dim2 := d2, polygonal := pg, targetSingleShell := ss, numPoints := n }
+      let f : Facts := { testLocs := tl, segInt := si, proper := pr, nonProper := np, repLocs := rl }
+      let c := eval true sh f fc
+      let v := eval false sh f fv
+      let p := containsProperly sh f
+      let i := intersects sh f
+      let direct := String.ofList [b01 c, b01 v, b01 p, b01 i]
+      let wrapped := if rect then "----" else
+        String.ofList [b01 (wrapCovers ec c), b01 (wrapCovers ec v), b01 (wrapCovers ec p), b01 (wrapIntersects ei i)]
+      direct ++ " " ++ wrapped
+    | _, _, _, _, _, _, _, _, _, _, _, _, _, _, _, _ => "parse-error"
+  | _ => "bad-line"
+
 end Driver.C01
 
 def main (args : List String) : IO UInt32 := do
@@ -162,5 +190,6 @@ def main (args : List String) : IO UInt32 := do
   | ["relate-grid"] => Driver.loop (← IO.getStdin) (← IO.getStdout) Driver.C01.check; return 0
   | ["refmatrix"] => Driver.loop (← IO.getStdin) (← IO.getStdout) Driver.C01.refOnly; return 0
   | ["pred-sm"] => Driver.loop (← IO.getStdin) (← IO.getStdout) Driver.C01.predSM; return 0
+  | ["prep-core"] => Driver.loop (← IO.getStdin) (← IO.getStdout) Driver.C01.prepCore; return 0
   | ["immatrix"] => Driver.loop (← IO.getStdin) (← IO.getStdout) Driver.C01.imMatrix; return 0
   | _ => IO.eprintln "usage: drv_c01 relate-grid"; return 2
